@@ -60,6 +60,11 @@ def check_pair(item):
         a, b, b2 = a[0], a[1], b
         stmts = (("case", False, ((None, (L("p"),), (("set", "n", ("num", 1)),)), (None, (L("q"),), ()))), ("match", a),
                  ("if", ((("bin", "==", ("var", "n"), ("num", 1)), (("match", b),)),), (("match", b2),)))
+    elif kind == "looplast":
+        # the body ends in A: whatever can continue A must not be able to start the next iteration
+        stmts = (("loop", None, (("match", a),)),)
+    elif kind == "loopopt":
+        stmts = (("loop", None, (("match", a), ("optional", (("match", b),)))),)
     elif kind == "loopif":
         # a loop left by a conditional break: what follows the loop follows A directly when the condition holds
         stmts = (("case", False, ((None, (L("p"),), (("set", "n", ("num", 1)),)), (None, (L("q"),), ()))),
@@ -72,6 +77,16 @@ def check_pair(item):
     ra, rb = U.m_core(a), U.m_core(b)
     if kind == "if":
         w = ambiguous_seq(ra, rb, reps) or ambiguous_seq(ra, U.m_core(b2), reps)
+    elif kind == "looplast":
+        w = ambiguous_seq(ra, ra, reps)
+        if w is None and D.nullable(ra):
+            w = ("loop body can match the empty string",)
+    elif kind == "loopopt":
+        fa = set(c for c in reps if not D.Dfa(ra, reps).dead(D.deriv(ra, c)))
+        fb = set(c for c in reps if not D.Dfa(rb, reps).dead(D.deriv(rb, c)))
+        w = ambiguous_seq(ra, rb, reps) or ambiguous_seq(ra, ra, reps) or ambiguous_seq(rb, ra, reps) or ((min(fa & fb),) if fa & fb else None)
+        if w is None and (D.nullable(ra) or D.nullable(rb)):
+            w = ("a block can match the empty string",)
     elif kind == "loopif":
         w = ambiguous_seq(ra, rb, reps) or ambiguous_seq(ra, U.m_core(L("c")), reps)
     elif kind == "seq":
@@ -189,7 +204,7 @@ def run(tier, seed):
                     "over all reachable REF x machine states; distinct = programs for which the compiler verdict and the ground truth were both established")
     items = []
     for a, b in itertools.product(MENU, MENU):
-        for kind in ("seq", "opt", "optafter", "loop", "loopif"):
+        for kind in ("seq", "opt", "optafter", "loop", "loopif", "loopopt") + (("looplast",) if b is MENU[0] else ()):
             items.append(("pair", (kind, a, b)))
     sub = MENU[:3] + MENU[4:5] + MENU[8:11]
     for a in sub:
